@@ -537,6 +537,10 @@ func runSession(s *sessScript, data []byte, cuts []int, gateOff int, expectBefor
 
 func sessionFamily(c *Case) {
 	r := c.R
+	if tooManyStalls() {
+		c.Dist("session-skipped/after-repeated-stalls")
+		return
+	}
 	s := genSessionScript(c)
 	data := s.stream()
 	c.Dist("session-kind/" + s.Kind)
@@ -606,6 +610,9 @@ func sessionFamily(c *Case) {
 	// direct property check: identical observations under every segmentation
 	for i := 1; i < len(obs); i++ {
 		if obs[i].Canon != obs[0].Canon {
+			if !obs[i].GateTimely || !obs[0].GateTimely || !obs[i].Done || !obs[0].Done {
+				stalls.Add(1)
+			}
 			c.Note("segmentation_a", segs[0].name)
 			c.Note("observation_a", clip(obs[0].Canon))
 			c.Note("segmentation_b", segs[i].name)
@@ -617,6 +624,7 @@ func sessionFamily(c *Case) {
 	}
 	o := obs[0]
 	if !o.Done || !o.GateTimely {
+		stalls.Add(1)
 		c.Note("observation", clip(o.Canon))
 		c.Note("model", clip(m.Raw))
 		c.Disagree("session-stalled", "the connection handler did not produce what the model dispatches / did not return")
@@ -706,6 +714,10 @@ type xferRun struct {
 
 func transferFamily(c *Case) {
 	r := c.R
+	if tooManyStalls() {
+		c.Dist("transfer-skipped/after-repeated-stalls")
+		return
+	}
 	name := "up-" + r.Name(8) + ".bin"
 	name = strings.ReplaceAll(name, " ", "_")
 	data := r.Bytes(r.Pick(0, 1, 100, 3000, 40000))
@@ -832,8 +844,7 @@ func transferFamily(c *Case) {
 	}
 	wg.Wait()
 	if fixErr != nil {
-		c.Note("fixture", fixErr.Error())
-		c.Dist("transfer-skipped/fixture")
+		fixtureLoginFailed(c, fixErr.Error())
 		return
 	}
 	for i := range segs {
